@@ -134,9 +134,11 @@ func handleError(t testingT, err any) {
 type syncRegistry struct {
 	running map[string]map[string]int
 	cleanup map[string]map[string]int
-	// executions keeps how many times a test started taking snapshots in a snap path,
-	// map[snap path]: map[testname]: <number of executions>
-	executions map[string]map[string]int
+	// highest keeps the highest occurrence a test reached in a snap path in any of its
+	// executions (-count, -cpu), map[snap path]: map[testname]: <highest occurrence>.
+	// An execution that stops early (skip, FailNow) must not hide the snapshots
+	// another execution of the same test took.
+	highest map[string]map[string]int
 	sync.Mutex
 }
 
@@ -148,15 +150,15 @@ func (s *syncRegistry) getTestID(snapPath, testName string) string {
 	if _, exists := s.running[snapPath]; !exists {
 		s.running[snapPath] = make(map[string]int)
 		s.cleanup[snapPath] = make(map[string]int)
-		s.executions[snapPath] = make(map[string]int)
+		s.highest[snapPath] = make(map[string]int)
 	}
 
-	if s.running[snapPath][testName] == 0 {
-		s.executions[snapPath][testName]++
-	}
 	s.running[snapPath][testName]++
 	s.cleanup[snapPath][testName]++
 	c := s.running[snapPath][testName]
+	if c > s.highest[snapPath][testName] {
+		s.highest[snapPath][testName] = c
+	}
 	s.Unlock()
 
 	return fmt.Sprintf("[%s - %d]", testName, c)
@@ -171,38 +173,38 @@ func (s *syncRegistry) reset(snapPath, testName string) {
 
 func newRegistry() *syncRegistry {
 	return &syncRegistry{
-		running:    make(map[string]map[string]int),
-		cleanup:    make(map[string]map[string]int),
-		executions: make(map[string]map[string]int),
-		Mutex:      sync.Mutex{},
+		running: make(map[string]map[string]int),
+		cleanup: make(map[string]map[string]int),
+		highest: make(map[string]map[string]int),
+		Mutex:   sync.Mutex{},
 	}
 }
 
 type syncStandaloneRegistry struct {
-	running    map[string]int
-	cleanup    map[string]int
-	executions map[string]int
+	running map[string]int
+	cleanup map[string]int
+	highest map[string]int
 	sync.Mutex
 }
 
 func newStandaloneRegistry() *syncStandaloneRegistry {
 	return &syncStandaloneRegistry{
-		running:    make(map[string]int),
-		cleanup:    make(map[string]int),
-		executions: make(map[string]int),
-		Mutex:      sync.Mutex{},
+		running: make(map[string]int),
+		cleanup: make(map[string]int),
+		highest: make(map[string]int),
+		Mutex:   sync.Mutex{},
 	}
 }
 
 func (s *syncStandaloneRegistry) getTestID(snapPath, snapPathRel string) (string, string) {
 	s.Lock()
 
-	if s.running[snapPath] == 0 {
-		s.executions[snapPath]++
-	}
 	s.running[snapPath]++
 	s.cleanup[snapPath]++
 	c := s.running[snapPath]
+	if c > s.highest[snapPath] {
+		s.highest[snapPath] = c
+	}
 	s.Unlock()
 
 	return fmt.Sprintf(snapPath, c), fmt.Sprintf(snapPathRel, c)
